@@ -102,9 +102,16 @@ def make_frame(ex, kind, fmt, wr, jpgcached, caches, tag='s'):
     return f
 
 
+KNOWN_FRAME_FIELDS = {'_Frame__image', '_Frame__data', '_Frame__jpg', '_Frame__shapef', '_Frame__ro_rgb', '_Frame__ro_bgr', '_Frame__ro_gray'}
+
+
 def frame_inv(ex, f, who, depth=0):
     """FrameInv(f) as (name, formula) pairs"""
     out = []
+    unknown = sorted(k for k in f.f if k.startswith('_Frame__') and k not in KNOWN_FRAME_FIELDS)
+    if unknown:
+        # the invariant is inductive only over the state it describes: a field it does not know (one a change introduced) is state the proof says nothing about
+        raise Unsupported(f'contract no longer binds: Frame field(s) {unknown} are not part of the state FrameInv describes')
     img, jpg, shapef = f.f.get('_Frame__image'), f.f.get('_Frame__jpg'), f.f.get('_Frame__shapef')
     add = lambda n, c: out.append((f'C10.FrameInv({who}): {n}', zbv(c)))
     if img is None:
@@ -630,3 +637,90 @@ class ConstructorUnit(Unit):
 
 
 UNITS.append(ConstructorUnit())
+
+
+# ================================================================================================== BOUNDED stand-in: operation sequences on the real Frame
+def native_sequences(max_len):
+    """BOUNDED (never counted as proved): every sequence up to `max_len` of the operations the statement lists, on the real Frame, from read-only / writable / jpg-only
+    BGR and GRAY frames; after every step, for every frame alive: a jpg is attached only to pixels that cannot change, it decodes to the CURRENT pixels, nothing
+    read-only became writable, and a frame documented as a new copy shares no memory with the frame it was made from"""
+    import itertools, logging
+    import numpy as np
+    import cv2
+    logging.disable(logging.CRITICAL)
+    from openfilter.filter_runtime import Frame
+    OPS = ('rw', 'ro', 'rgb', 'bgr', 'gray', 'rw_rgb', 'rw_bgr', 'ro_rgb', 'ro_bgr', 'copy', 'ctor', 'image', 'jpg', 'write')
+    rng = np.random.default_rng(7)
+
+    def starts():
+        for fmt in ('BGR', 'GRAY'):
+            ii, jj = np.meshgrid(np.arange(16), np.arange(16), indexing='ij')
+            g_ = (6 * ii + 4 * jj + 20).astype(np.uint8)      # a smooth gradient: the jpg error stays small, and 255 - image is far away from it
+            base = g_ if fmt == 'GRAY' else np.stack([g_, g_ // 2 + 60, 255 - g_], axis=2).astype(np.uint8)
+            yield f'writable {fmt}', lambda b=base, f=fmt: Frame(b.copy(), {'k': 1}, f)
+
+            def ro(b=base, f=fmt):
+                a = b.copy()
+                a.flags.writeable = False
+                return Frame(a, {'k': 1}, f)
+            yield f'read-only {fmt}', ro
+            yield f'jpg-only {fmt}', lambda b=base, f=fmt: Frame.from_jpg(cv2.imencode('.jpg', b)[1].tobytes(), {'k': 1}, b.shape[0], b.shape[1], f)
+
+    def check(frames, trail):
+        for fr in frames:
+            img = fr._Frame__image
+            if img is None:
+                continue
+            if fr.has_jpg and img is not False and img.flags.writeable:
+                return f'{trail}: a frame whose pixels are writable has a jpg attached (has_jpg is True)'
+            if fr.has_jpg and img is not False:
+                dec = cv2.imdecode(np.frombuffer(fr.jpg, np.uint8), cv2.IMREAD_GRAYSCALE if fr.is_gray else cv2.IMREAD_COLOR)
+                if dec.shape != img.shape or np.abs(dec.astype(int) - img.astype(int)).mean() > 20:
+                    return f'{trail}: the attached jpg does not decode to the current pixels'
+        return None
+    n, bad = 0, None
+    for (label, mk), L in itertools.product(list(starts()), range(1, max_len + 1)):
+        for seq in itertools.product(OPS, repeat=L):
+            if seq[-1] not in ('jpg', 'write', 'image') and L == max_len:
+                continue        # the last step of a longest sequence must be an observation or an edit to add anything
+            n += 1
+            cur = mk()
+            alive = [cur]
+            try:
+                for op in seq:
+                    if op in ('image', 'jpg'):
+                        getattr(cur, op)
+                    elif op == 'write':
+                        tgt = next((f for f in reversed(alive) if f._Frame__image is not None and f._Frame__image is not False and f._Frame__image.flags.writeable), None)
+                        if tgt is not None:
+                            tgt._Frame__image[...] = 255 - tgt._Frame__image
+                    else:
+                        new = cur.copy() if op == 'copy' else Frame(cur, {'k': 2}) if op == 'ctor' else getattr(cur, op)
+                        if new is not cur:
+                            si, ni = cur._Frame__image, new._Frame__image
+                            if op.startswith('ro') and ni is not None and ni is not False and ni.flags.writeable:
+                                bad = f'{label}: {", ".join(seq)}: {op} returned writable pixels'
+                            if op in ('rw', 'ro', 'rw_rgb', 'rw_bgr', 'ro_rgb', 'ro_bgr') and isinstance(si, np.ndarray) and isinstance(ni, np.ndarray) and np.shares_memory(si, ni):
+                                bad = f'{label}: {", ".join(seq)}: {op} (documented as a NEW copy) shares memory with its source'
+                            alive.append(new)
+                            cur = new
+                    bad = bad or check(alive, f'{label}: {", ".join(seq)}')
+                    if bad:
+                        break
+            except Exception as e:
+                bad = f'{label}: {", ".join(seq)}: {type(e).__name__}: {e}'
+            if bad:
+                return n, bad
+    return n, None
+
+
+def extra_checks(tier, seed, pool):
+    L = 3 if tier == 'quick' else 4
+    n, bad = native_sequences(L)
+    out = {'bounded': [{'clause': 'jpg only on immutable pixels and decoding to the current pixels, read-only never made writable, documented copies share no memory - after every step of an operation sequence on the real Frame',
+                        'kind': 'BOUNDED native enumeration (not a proof)', 'bound': f'6 start frames x every sequence of up to {L} of 14 operations (longest ones ending in an observation or an edit)', 'cases': n,
+                        'failures': 1 if bad else 0}]}
+    if bad:
+        out['failures'] = [{'obligation': 'C10 (bounded): an operation sequence on the real Frame violates the statement', 'unit': 0, 'shape': 'bounded', 'model': None, 'extra': None, 'goal': '',
+                            'path_condition': [], 'solver': 'bounded enumeration', 'native': {'confirmed': True, 'observed': bad, 'inputs': 'operation sequence named in the observation'}}]
+    return out
